@@ -161,6 +161,29 @@ def main():
             defi, rep, values = core.read_data_page(io.BytesIO(page), helper, header, md, selfmade=False)
             return ["ok", [int(x) for x in np.asarray(values)], None if defi is None else [int(x) for x in np.asarray(defi)],
                     str(np.asarray(values).dtype)]
+        if fn == "page_v2_dict":
+            # the v2 caller: core.read_data_page_v2 on a foreign RLE_DICTIONARY page (indices of width w, optional nulls)
+            import io
+            from fastparquet import parquet_thrift as pt, schema, core
+            root_se = pt.SchemaElement(name="schema", num_children=1)
+            col_se = pt.SchemaElement(name="c", type=pt.Type.INT32,
+                                      repetition_type=pt.FieldRepetitionType.OPTIONAL if c["optional"] else pt.FieldRepetitionType.REQUIRED)
+            helper = schema.SchemaHelper([root_se, col_se])
+            page = bytes.fromhex(c["page"])
+            dlen = c["dlen"]
+            nn = c["n"] - c["nval"]
+            h2 = pt.DataPageHeaderV2(num_values=c["n"], num_nulls=nn, num_rows=c["n"], encoding=pt.Encoding.RLE_DICTIONARY,
+                                     definition_levels_byte_length=dlen, repetition_levels_byte_length=0, is_compressed=False)
+            ph = pt.PageHeader(type=3, uncompressed_page_size=len(page), compressed_page_size=len(page), data_page_header_v2=h2)
+            md = pt.ColumnMetaData(type=pt.Type.INT32, path_in_schema=["c"], codec=0, num_values=c["n"], encodings=[8],
+                                   total_uncompressed_size=len(page), total_compressed_size=len(page), data_page_offset=0)
+
+            class Ident:            # a dictionary whose entry number k is k: the output shows the decoded indices
+                def __getitem__(self, idx):
+                    return np.asarray(idx).astype(np.int64)
+            assign = np.full(c["n"], -7, dtype=np.float64 if c["optional"] else np.int64)
+            core.read_data_page_v2(io.BytesIO(page), helper, col_se, h2, md, Ident(), assign, 0, False, 0, ph)
+            return ["ok", [None if (x != x) else int(x) for x in assign], None, str(assign.dtype)]
         if fn == "numpyio":
             # a small script of NumpyIO operations
             buf = outbuf(c["cap"])
